@@ -1561,6 +1561,1027 @@ Proof.
   - unfold IU, U1, U2. cbn. repeat split; intros; discriminate.
 Qed.
 
+(* ================================================================== XO: requests answer offers; header / bind contents *)
+Definition needs_offer (w : welem) : bool :=
+  match w with WStartTls | WAuth _ | WCompress | WBind _ | WSession | WEnable _ | WResume => true | _ => false end.
+Definition plain_w (w : welem) : bool :=
+  match w with WHeader _ | WStartTls | WAuth _ | WCompress | WBind _ | WSession | WEnable _ | WResume => false | _ => true end.
+Definition jg (g : ghost) (w : welem) : bool :=
+  match w with
+  | WStartTls => g_offer_tls g | WAuth m => mem_mech m (g_offered g) | WCompress => g_offer_zlib g
+  | WBind _ => g_offer_bind g | WSession => g_offer_session g | WEnable _ | WResume => g_offer_sm g
+  | _ => true
+  end.
+Definition hdr_w (tp : bool) (w : welem) : bool := match w with WHeader true => tp | _ => true end.
+Definition bnd_w (r0 : bool) (w : welem) : bool := match w with WBind r => Bool.eqb r r0 | _ => true end.
+Definition qall (f : welem -> bool) (q : list (welem * bool * bool)) : bool := forallb (fun x => f (fst (fst x))) q.
+Definition qown (q : list (welem * bool * bool)) : bool := forallb (fun x => snd x || plain_w (fst (fst x))) q.
+Definition smq_plain (q : list (welem * bool * bool * Z)) : bool := forallb (fun x => plain_w (fst (fst (fst x)))) q.
+Definition XO (g : ghost) (s : state) : Prop :=
+  (forall m, mem_mech m (sasl s) = true -> mem_mech m (g_offered g) = true) /\
+  (tls_support s = true -> g_offer_tls g = true) /\
+  (comp_supported s = true -> g_offer_zlib g = true) /\
+  (bind_required s = true -> g_offer_bind g = true) /\
+  (sm_bind_saved s = true -> g_offer_bind g = true) /\
+  (session_required s = true -> g_offer_session g = true) /\
+  (sm_support s = true -> g_offer_sm g = true) /\
+  qall (jg g) (sendq s) = true /\ qown (sendq s) = true /\ smq_plain (smq s) = true /\
+  (st s = Connected -> qall (hdr_w (tls_present s)) (sendq s) = true) /\
+  (st s <> Disconnected -> qall (bnd_w (jid_res s)) (sendq s) = true) /\
+  (st s <> Disconnected -> jid_set s = true).
+Ltac xo_split := refine (conj _ (conj _ (conj _ (conj _ (conj _ (conj _ (conj _ (conj _ (conj _ (conj _ (conj _ (conj _ _)))))))))))).
+Ltac xo_dest H := destruct H as (X1 & X2 & X3 & X4 & X5 & X6 & X7 & X8 & X9 & X10 & X11 & X12 & X13).
+
+Lemma jg_mono : forall g g' w, GFr g g' -> jg g w = true -> jg g' w = true.
+Proof. intros g g' w F. destruct w; cbn; auto; apply F. Qed.
+Lemma qall_mono : forall (f f' : welem -> bool) q, (forall w, f w = true -> f' w = true) -> qall f q = true -> qall f' q = true.
+Proof.
+  intros f f' q H. unfold qall. induction q as [|x q IH]; cbn; auto. intros A. apply andb_prop in A. destruct A as [A B].
+  rewrite (H _ A), (IH B). reflexivity.
+Qed.
+Lemma XO_mono : forall g g' s, GFr g g' -> XO g s -> XO g' s.
+Proof.
+  intros g g' s F H. xo_dest H. xo_split; auto; try (intros; apply F; auto).
+  eapply qall_mono; [|exact X8]. intros w. apply jg_mono. exact F.
+Qed.
+Lemma qall_app : forall f a b, qall f (a ++ b) = qall f a && qall f b.
+Proof. intros; unfold qall; apply forallb_app. Qed.
+Lemma XO_set_f_tls_disabled : forall g v s, XO g s -> XO g (set_f_tls_disabled v s).
+Proof. intros g v []; exact (fun h => h). Qed.
+#[export] Hint Resolve XO_set_f_tls_disabled : xodb.
+Lemma XO_set_f_tls_mandatory : forall g v s, XO g s -> XO g (set_f_tls_mandatory v s).
+Proof. intros g v []; exact (fun h => h). Qed.
+#[export] Hint Resolve XO_set_f_tls_mandatory : xodb.
+Lemma XO_set_f_legacy_ssl : forall g v s, XO g s -> XO g (set_f_legacy_ssl v s).
+Proof. intros g v []; exact (fun h => h). Qed.
+#[export] Hint Resolve XO_set_f_legacy_ssl : xodb.
+Lemma XO_set_f_tls_trust : forall g v s, XO g s -> XO g (set_f_tls_trust v s).
+Proof. intros g v []; exact (fun h => h). Qed.
+#[export] Hint Resolve XO_set_f_tls_trust : xodb.
+Lemma XO_set_f_legacy_auth : forall g v s, XO g s -> XO g (set_f_legacy_auth v s).
+Proof. intros g v []; exact (fun h => h). Qed.
+#[export] Hint Resolve XO_set_f_legacy_auth : xodb.
+Lemma XO_set_f_sm_disable : forall g v s, XO g s -> XO g (set_f_sm_disable v s).
+Proof. intros g v []; exact (fun h => h). Qed.
+#[export] Hint Resolve XO_set_f_sm_disable : xodb.
+Lemma XO_set_f_comp_allowed : forall g v s, XO g s -> XO g (set_f_comp_allowed v s).
+Proof. intros g v []; exact (fun h => h). Qed.
+#[export] Hint Resolve XO_set_f_comp_allowed : xodb.
+Lemma XO_set_f_comp_dont_reset : forall g v s, XO g s -> XO g (set_f_comp_dont_reset v s).
+Proof. intros g v []; exact (fun h => h). Qed.
+#[export] Hint Resolve XO_set_f_comp_dont_reset : xodb.
+Lemma XO_set_jid_node : forall g v s, XO g s -> XO g (set_jid_node v s).
+Proof. intros g v []; exact (fun h => h). Qed.
+#[export] Hint Resolve XO_set_jid_node : xodb.
+Lemma XO_set_pass_set : forall g v s, XO g s -> XO g (set_pass_set v s).
+Proof. intros g v []; exact (fun h => h). Qed.
+#[export] Hint Resolve XO_set_pass_set : xodb.
+Lemma XO_set_cert_set : forall g v s, XO g s -> XO g (set_cert_set v s).
+Proof. intros g v []; exact (fun h => h). Qed.
+#[export] Hint Resolve XO_set_cert_set : xodb.
+Lemma XO_set_is_raw : forall g v s, XO g s -> XO g (set_is_raw v s).
+Proof. intros g v []; exact (fun h => h). Qed.
+#[export] Hint Resolve XO_set_is_raw : xodb.
+Lemma XO_set_typ : forall g v s, XO g s -> XO g (set_typ v s).
+Proof. intros g v []; exact (fun h => h). Qed.
+#[export] Hint Resolve XO_set_typ : xodb.
+Lemma XO_set_user_handler : forall g v s, XO g s -> XO g (set_user_handler v s).
+Proof. intros g v []; exact (fun h => h). Qed.
+#[export] Hint Resolve XO_set_user_handler : xodb.
+Lemma XO_set_user_timed : forall g v s, XO g s -> XO g (set_user_timed v s).
+Proof. intros g v []; exact (fun h => h). Qed.
+#[export] Hint Resolve XO_set_user_timed : xodb.
+Lemma XO_set_tlsnew_ok : forall g v s, XO g s -> XO g (set_tlsnew_ok v s).
+Proof. intros g v []; exact (fun h => h). Qed.
+#[export] Hint Resolve XO_set_tlsnew_ok : xodb.
+Lemma XO_set_cb_avail : forall g v s, XO g s -> XO g (set_cb_avail v s).
+Proof. intros g v []; exact (fun h => h). Qed.
+#[export] Hint Resolve XO_set_cb_avail : xodb.
+Lemma XO_set_tls_verdicts : forall g v s, XO g s -> XO g (set_tls_verdicts v s).
+Proof. intros g v []; exact (fun h => h). Qed.
+#[export] Hint Resolve XO_set_tls_verdicts : xodb.
+Lemma XO_set_next_cands : forall g v s, XO g s -> XO g (set_next_cands v s).
+Proof. intros g v []; exact (fun h => h). Qed.
+#[export] Hint Resolve XO_set_next_cands : xodb.
+Lemma XO_set_cands : forall g v s, XO g s -> XO g (set_cands v s).
+Proof. intros g v []; exact (fun h => h). Qed.
+#[export] Hint Resolve XO_set_cands : xodb.
+Lemma XO_set_cur_ep : forall g v s, XO g s -> XO g (set_cur_ep v s).
+Proof. intros g v []; exact (fun h => h). Qed.
+#[export] Hint Resolve XO_set_cur_ep : xodb.
+Lemma XO_set_stamp : forall g v s, XO g s -> XO g (set_stamp v s).
+Proof. intros g v []; exact (fun h => h). Qed.
+#[export] Hint Resolve XO_set_stamp : xodb.
+Lemma XO_set_err : forall g v s, XO g s -> XO g (set_err v s).
+Proof. intros g v []; exact (fun h => h). Qed.
+#[export] Hint Resolve XO_set_err : xodb.
+Lemma XO_set_stream_error : forall g v s, XO g s -> XO g (set_stream_error v s).
+Proof. intros g v []; exact (fun h => h). Qed.
+#[export] Hint Resolve XO_set_stream_error : xodb.
+Lemma XO_set_secured : forall g v s, XO g s -> XO g (set_secured v s).
+Proof. intros g v []; exact (fun h => h). Qed.
+#[export] Hint Resolve XO_set_secured : xodb.
+Lemma XO_set_tls_failed : forall g v s, XO g s -> XO g (set_tls_failed v s).
+Proof. intros g v []; exact (fun h => h). Qed.
+#[export] Hint Resolve XO_set_tls_failed : xodb.
+Lemma XO_set_comp_active : forall g v s, XO g s -> XO g (set_comp_active v s).
+Proof. intros g v []; exact (fun h => h). Qed.
+#[export] Hint Resolve XO_set_comp_active : xodb.
+Lemma XO_set_sm_alloc : forall g v s, XO g s -> XO g (set_sm_alloc v s).
+Proof. intros g v []; exact (fun h => h). Qed.
+#[export] Hint Resolve XO_set_sm_alloc : xodb.
+Lemma XO_set_sm_enabled : forall g v s, XO g s -> XO g (set_sm_enabled v s).
+Proof. intros g v []; exact (fun h => h). Qed.
+#[export] Hint Resolve XO_set_sm_enabled : xodb.
+Lemma XO_set_sm_can_resume : forall g v s, XO g s -> XO g (set_sm_can_resume v s).
+Proof. intros g v []; exact (fun h => h). Qed.
+#[export] Hint Resolve XO_set_sm_can_resume : xodb.
+Lemma XO_set_sm_resume : forall g v s, XO g s -> XO g (set_sm_resume v s).
+Proof. intros g v []; exact (fun h => h). Qed.
+#[export] Hint Resolve XO_set_sm_resume : xodb.
+Lemma XO_set_sm_dont_request : forall g v s, XO g s -> XO g (set_sm_dont_request v s).
+Proof. intros g v []; exact (fun h => h). Qed.
+#[export] Hint Resolve XO_set_sm_dont_request : xodb.
+Lemma XO_set_sm_has_previd : forall g v s, XO g s -> XO g (set_sm_has_previd v s).
+Proof. intros g v []; exact (fun h => h). Qed.
+#[export] Hint Resolve XO_set_sm_has_previd : xodb.
+Lemma XO_set_sm_has_id : forall g v s, XO g s -> XO g (set_sm_has_id v s).
+Proof. intros g v []; exact (fun h => h). Qed.
+#[export] Hint Resolve XO_set_sm_has_id : xodb.
+Lemma XO_set_sm_parked : forall g v s, XO g s -> XO g (set_sm_parked v s).
+Proof. intros g v []; exact (fun h => h). Qed.
+#[export] Hint Resolve XO_set_sm_parked : xodb.
+Lemma XO_set_sm_r_sent : forall g v s, XO g s -> XO g (set_sm_r_sent v s).
+Proof. intros g v []; exact (fun h => h). Qed.
+#[export] Hint Resolve XO_set_sm_r_sent : xodb.
+Lemma XO_set_bound_jid : forall g v s, XO g s -> XO g (set_bound_jid v s).
+Proof. intros g v []; exact (fun h => h). Qed.
+#[export] Hint Resolve XO_set_bound_jid : xodb.
+Lemma XO_set_stream_id : forall g v s, XO g s -> XO g (set_stream_id v s).
+Proof. intros g v []; exact (fun h => h). Qed.
+#[export] Hint Resolve XO_set_stream_id : xodb.
+Lemma XO_set_neg_done : forall g v s, XO g s -> XO g (set_neg_done v s).
+Proof. intros g v []; exact (fun h => h). Qed.
+#[export] Hint Resolve XO_set_neg_done : xodb.
+Lemma XO_set_reset_parser : forall g v s, XO g s -> XO g (set_reset_parser v s).
+Proof. intros g v []; exact (fun h => h). Qed.
+#[export] Hint Resolve XO_set_reset_parser : xodb.
+Lemma XO_set_oh : forall g v s, XO g s -> XO g (set_oh v s).
+Proof. intros g v []; exact (fun h => h). Qed.
+#[export] Hint Resolve XO_set_oh : xodb.
+Lemma XO_set_ps : forall g v s, XO g s -> XO g (set_ps v s).
+Proof. intros g v []; exact (fun h => h). Qed.
+#[export] Hint Resolve XO_set_ps : xodb.
+Lemma XO_set_handlers : forall g v s, XO g s -> XO g (set_handlers v s).
+Proof. intros g v []; exact (fun h => h). Qed.
+#[export] Hint Resolve XO_set_handlers : xodb.
+Lemma XO_set_idhandlers : forall g v s, XO g s -> XO g (set_idhandlers v s).
+Proof. intros g v []; exact (fun h => h). Qed.
+#[export] Hint Resolve XO_set_idhandlers : xodb.
+Lemma XO_set_timed : forall g v s, XO g s -> XO g (set_timed v s).
+Proof. intros g v []; exact (fun h => h). Qed.
+#[export] Hint Resolve XO_set_timed : xodb.
+Lemma XO_set_rxq : forall g v s, XO g s -> XO g (set_rxq v s).
+Proof. intros g v []; exact (fun h => h). Qed.
+#[export] Hint Resolve XO_set_rxq : xodb.
+Lemma XO_set_sm_sent : forall g v s, XO g s -> XO g (set_sm_sent v s).
+Proof. intros g v []; exact (fun h => h). Qed.
+#[export] Hint Resolve XO_set_sm_sent : xodb.
+Lemma XO_set_scram_serial : forall g v s, XO g s -> XO g (set_scram_serial v s).
+Proof. intros g v []; exact (fun h => h). Qed.
+#[export] Hint Resolve XO_set_scram_serial : xodb.
+Lemma XO_set_crashed : forall g v s, XO g s -> XO g (set_crashed v s).
+Proof. intros g v []; exact (fun h => h). Qed.
+#[export] Hint Resolve XO_set_crashed : xodb.
+Lemma XO_set_gh : forall g v s, XO g s -> XO g (set_gh v s).
+Proof. intros g v []; exact (fun h => h). Qed.
+#[export] Hint Resolve XO_set_gh : xodb.
+Lemma XO_upg : forall g f s, XO g s -> XO g (upg f s).
+Proof. intros g f []; exact (fun h => h). Qed.
+#[export] Hint Resolve XO_upg : xodb.
+
+(* what may be appended to the send queue *)
+Definition okw (g : ghost) (s : state) (w : welem) (u sm : bool) : Prop :=
+  jg g w = true /\ (sm = true \/ plain_w w = true \/ (u = false /\ sm_enabled s = false)) /\
+  hdr_w (tls_present s) w = true /\ bnd_w (jid_res s) w = true.
+Lemma XO_q_append : forall g w u sm s, okw g s w u sm -> XO g s -> XO g (q_append w u sm s).
+Proof.
+  intros g w u sm s (J & O & Hd & Bd) H. xo_dest H.
+  assert (Own : (sm || negb u && negb (sm_enabled s)) || plain_w w = true).
+  { destruct O as [O|[O|[O1 O2]]]; [rewrite O; reflexivity | rewrite O; apply orb_true_r | rewrite O1, O2; cbn [negb andb]; rewrite orb_true_r; reflexivity]. }
+  unfold q_append. cbv zeta.
+  match goal with |- context [if ?c then _ else _] => destruct c end; xo_split; sproj; auto;
+    rewrite ?qall_app; unfold qown; rewrite ?forallb_app; fold (qown (sendq s));
+    cbn [qall forallb fst snd plain_w jg hdr_w bnd_w orb andb];
+    try (intros C; rewrite ?(X11 C), ?(X12 C)); rewrite ?X8, ?X9, ?J, ?Own, ?Hd, ?Bd; reflexivity.
+Qed.
+Lemma XO_send_gated : forall g w u sm s, okw g s w u sm -> XO g s -> XO g (send_gated w u sm s).
+Proof. intros; unfold send_gated; cases; auto using XO_q_append. Qed.
+Lemma XO_send_raw_m : forall g w u sm s, okw g s w u sm -> XO g s -> XO g (send_raw_m w u sm s).
+Proof. intros; unfold send_raw_m; cases; auto using XO_q_append. Qed.
+(* elements that need neither an offer nor special content, owned by stream management or plain *)
+Lemma okw_free : forall g s w u sm, needs_offer w = false -> (sm = true \/ plain_w w = true) ->
+  hdr_w (tls_present s) w = true -> bnd_w (jid_res s) w = true -> okw g s w u sm.
+Proof.
+  intros g s w u sm N O Hd Bd. refine (conj _ (conj _ (conj Hd Bd))).
+  - destruct w; try discriminate; reflexivity.
+  - destruct O; auto.
+Qed.
+#[export] Hint Extern 1 (XO _ (send_gated _ _ _ _)) =>
+  (apply XO_send_gated; [apply okw_free; [reflexivity | first [left; reflexivity | right; reflexivity] | reflexivity | reflexivity] | ]) : xodb.
+#[export] Hint Extern 1 (XO _ (send_raw_m _ _ _ _)) =>
+  (apply XO_send_raw_m; [apply okw_free; [reflexivity | first [left; reflexivity | right; reflexivity] | reflexivity | reflexivity] | ]) : xodb.
+
+Lemma XO_set_sasl : forall g l s, (forall m, mem_mech m l = true -> mem_mech m (g_offered g) = true) -> XO g s -> XO g (set_sasl l s).
+Proof. intros g l s L H. xo_dest H. xo_split; auto. Qed.
+Lemma mem_mech_del : forall m m' l, mem_mech m (del_mech m' l) = true -> mem_mech m l = true.
+Proof.
+  intros m m' l. unfold mem_mech, del_mech. induction l as [|x l IH]; cbn; auto.
+  destruct (negb (mech_eqb m' x)); cbn; intros H; [apply orb_prop in H; destruct H as [H|H]; [rewrite H; reflexivity | rewrite (IH H); apply orb_true_r] | rewrite (IH H); apply orb_true_r].
+Qed.
+Lemma XO_set_tls_support_false : forall g s, XO g s -> XO g (set_tls_support false s).
+Proof. intros g s H. xo_dest H. xo_split; auto. intros; discriminate. Qed.
+Lemma XO_set_sm_support_false : forall g s, XO g s -> XO g (set_sm_support false s).
+Proof. intros g s H. xo_dest H. xo_split; auto. intros; discriminate. Qed.
+Lemma XO_set_sm_bind_saved_false : forall g s, XO g s -> XO g (set_sm_bind_saved false s).
+Proof. intros g s H. xo_dest H. xo_split; auto. intros; discriminate. Qed.
+Lemma XO_set_sendq_nil : forall g s, XO g s -> XO g (set_sendq [] s).
+Proof. intros g s H. xo_dest H. xo_split; auto. Qed.
+Lemma XO_set_st_disc : forall g s, XO g s -> XO g (set_st Disconnected s).
+Proof. intros g s H. xo_dest H. xo_split; auto; sproj; intros; congruence. Qed.
+Lemma XO_set_tls_present_true : forall g s, XO g s -> XO g (set_tls_present true s).
+Proof.
+  intros g s H. xo_dest H. xo_split; auto. intros _. sproj. unfold qall. apply forallb_forall. intros x _. destruct (fst (fst x)); try reflexivity. destruct from; reflexivity.
+Qed.
+Lemma XO_set_tls_present_false : forall g s, st s <> Connected \/ tls_present s = false -> XO g s -> XO g (set_tls_present false s).
+Proof.
+  intros g s C H. xo_dest H. xo_split; auto. intros D. destruct C as [C|C]; [exfalso; apply C; exact D|]. sproj. rewrite <- C. exact (X11 D).
+Qed.
+#[export] Hint Resolve XO_set_tls_support_false XO_set_sm_support_false XO_set_sm_bind_saved_false XO_set_sendq_nil XO_set_st_disc XO_set_tls_present_true : xodb.
+Lemma smq_plain_drop : forall h q, smq_plain q = true -> smq_plain (drop_below h q) = true.
+Proof. intros h q. induction q as [|x q IH]; cbn; auto. intros A. destruct (snd x <? h); auto. apply andb_prop in A. apply IH, A. Qed.
+Lemma XO_sm_queue_cleanup : forall g h s, XO g s -> XO g (sm_queue_cleanup h s).
+Proof. intros g h s H. xo_dest H. unfold sm_queue_cleanup. xo_split; auto. sproj. apply smq_plain_drop, X10. Qed.
+Lemma XO_sm_queue_resend : forall g s, XO g s -> XO g (sm_queue_resend s).
+Proof.
+  intros g s H. unfold sm_queue_resend.
+  assert (P : smq_plain (smq s) = true) by (xo_dest H; exact X10).
+  assert (H0 : XO g (set_smq [] s)) by (xo_dest H; xo_split; auto).
+  revert H0. generalize (set_smq [] s). induction (smq s) as [|x q IH]; intros a Ha; cbn [fold_left]; auto.
+  cbn [smq_plain forallb] in P. apply andb_prop in P. destruct P as [P1 P2]. apply IH; auto.
+  apply XO_send_raw_m; auto. destruct (fst (fst (fst x))); try discriminate; (refine (conj _ (conj _ (conj _ _))); [reflexivity | right; left; reflexivity | reflexivity | reflexivity]).
+Qed.
+#[export] Hint Resolve XO_sm_queue_cleanup XO_sm_queue_resend : xodb.
+Lemma XO_reset_sm_for_reconnect : forall g s, XO g s -> XO g (reset_sm_for_reconnect s).
+Proof. intros g s H. unfold reset_sm_for_reconnect. cases; eauto 20 with xodb. Qed.
+#[export] Hint Resolve XO_reset_sm_for_reconnect : xodb.
+Lemma XO_conn_disconnect : forall g s, XO g s -> XO g (fst (conn_disconnect s)).
+Proof.
+  intros g s H. name_result. unfold conn_disconnect, ret. cases; leaf; eauto 20 with xodb;
+    repeat first [apply XO_upg | apply XO_reset_sm_for_reconnect]; (apply XO_set_tls_present_false; [left; sproj; discriminate | eauto 10 with xodb]).
+Qed.
+#[export] Hint Resolve XO_conn_disconnect : xodb.
+Lemma XO_timed_add : forall g k n s, XO g s -> XO g (timed_add k n s).
+Proof. intros; unfold timed_add, ret; cases; leaf; eauto 30 with xodb. Qed.
+#[export] Hint Resolve XO_timed_add : xodb.
+Lemma XO_timed_del : forall g k s, XO g s -> XO g (timed_del k s).
+Proof. intros; unfold timed_del, ret; cases; leaf; eauto 30 with xodb. Qed.
+#[export] Hint Resolve XO_timed_del : xodb.
+Lemma XO_timed_reset_all : forall g n s, XO g s -> XO g (timed_reset_all n s).
+Proof. intros; unfold timed_reset_all, ret; cases; leaf; eauto 30 with xodb. Qed.
+#[export] Hint Resolve XO_timed_reset_all : xodb.
+Lemma XO_timed_set_stamp : forall g k n s, XO g s -> XO g (timed_set_stamp k n s).
+Proof. intros; unfold timed_set_stamp, ret; cases; leaf; eauto 30 with xodb. Qed.
+#[export] Hint Resolve XO_timed_set_stamp : xodb.
+Lemma XO_h_add : forall g k s, XO g s -> XO g (h_add k s).
+Proof. intros; unfold h_add, ret; cases; leaf; eauto 30 with xodb. Qed.
+#[export] Hint Resolve XO_h_add : xodb.
+Lemma XO_h_del : forall g k s, XO g s -> XO g (h_del k s).
+Proof. intros; unfold h_del, ret; cases; leaf; eauto 30 with xodb. Qed.
+#[export] Hint Resolve XO_h_del : xodb.
+Lemma XO_id_add : forall g k s, XO g s -> XO g (id_add k s).
+Proof. intros; unfold id_add, ret; cases; leaf; eauto 30 with xodb. Qed.
+#[export] Hint Resolve XO_id_add : xodb.
+Lemma XO_id_del : forall g k s, XO g s -> XO g (id_del k s).
+Proof. intros; unfold id_del, ret; cases; leaf; eauto 30 with xodb. Qed.
+#[export] Hint Resolve XO_id_del : xodb.
+Lemma XO_xmpp_disconnect : forall g n s, XO g s -> XO g (xmpp_disconnect n s).
+Proof. intros; unfold xmpp_disconnect, ret; cases; leaf; eauto 30 with xodb. Qed.
+#[export] Hint Resolve XO_xmpp_disconnect : xodb.
+Lemma XO_prepare_reset : forall g h s, XO g s -> XO g (prepare_reset h s).
+Proof. intros; unfold prepare_reset, ret; cases; leaf; eauto 30 with xodb. Qed.
+#[export] Hint Resolve XO_prepare_reset : xodb.
+Lemma XO_stream_negotiation_success : forall g s, XO g s -> XO g (fst (stream_negotiation_success s)).
+Proof. intros; name_result; unfold stream_negotiation_success, ret; cases; leaf; eauto 30 with xodb. Qed.
+#[export] Hint Resolve XO_stream_negotiation_success : xodb.
+Lemma XO_auth_legacy : forall g n s, XO g s -> XO g (auth_legacy n s).
+Proof. intros; unfold auth_legacy, ret; cases; leaf; eauto 30 with xodb. Qed.
+#[export] Hint Resolve XO_auth_legacy : xodb.
+Lemma XO_note_rx : forall g e s, XO g s -> XO g (note_rx e s).
+Proof. intros; unfold note_rx; cbv zeta; eauto with xodb. Qed.
+#[export] Hint Resolve XO_note_rx : xodb.
+Lemma XO_sm_handle : forall g e s, XO g s -> XO g (sm_handle e s).
+Proof. intros; unfold sm_handle, ret; cases; leaf; eauto 30 with xodb. Qed.
+#[export] Hint Resolve XO_sm_handle : xodb.
+Lemma XO_connect_next : forall g n s, XO g s -> XO g (fst (fst (connect_next n s))).
+Proof. intros; name_result; unfold connect_next; destruct (sock_connect (cands s)) as [oo [[k r]|]]; leaf; eauto 20 with xodb. Qed.
+#[export] Hint Resolve XO_connect_next : xodb.
+Ltac smoff :=
+  match goal with
+  | H : sm_enabled ?s = false |- sm_enabled ?x = false =>
+      let E := fresh in assert (E : Sn s x) by eauto 20 with sndb;
+      let Q := fresh in destruct (sm_enabled x) eqn:Q; auto; rewrite (E Q) in H; discriminate
+  end.
+Lemma XO_conn_open_stream : forall g s, XO g s -> XO g (conn_open_stream s).
+Proof.
+  intros g s H. unfold conn_open_stream. apply XO_send_gated; auto.
+  refine (conj _ (conj _ (conj _ _))); [reflexivity | left; reflexivity | | reflexivity].
+  destruct (tls_present s), (jid_node s); reflexivity.
+Qed.
+#[export] Hint Resolve XO_conn_open_stream : xodb.
+Lemma XO_conn_tls_start : forall g s, st s <> Connected \/ tls_present s = false -> XO g s -> XO g (fst (fst (conn_tls_start s))).
+Proof.
+  intros g s C H. name_result. unfold conn_tls_start. cases; leaf; eauto 20 with xodb.
+  apply XO_set_tls_present_false; [exact C | eauto 20 with xodb].
+Qed.
+Lemma XO_do_bind : forall g n b s, g_offer_bind g = true -> sm_enabled s = false -> XO g s -> XO g (fst (do_bind n b s)).
+Proof.
+  intros g n b s O S H. name_result. unfold do_bind, ret. cases; leaf; eauto 20 with xodb.
+  apply XO_send_gated; [ | eauto 20 with xodb].
+  refine (conj O (conj _ (conj eq_refl _))); [right; right; split; [reflexivity | smoff] | apply eqb_reflx].
+Qed.
+Lemma XO_session_start : forall g n s, g_offer_session g = true -> sm_enabled s = false -> XO g s -> XO g (session_start n s).
+Proof.
+  intros g n s O S H. unfold session_start. apply XO_send_gated; [ | eauto 20 with xodb].
+  refine (conj O (conj _ (conj eq_refl eq_refl))). right; right; split; [reflexivity | smoff].
+Qed.
+Lemma XO_sm_enable : forall g s, g_offer_sm g = true -> XO g s -> XO g (sm_enable s).
+Proof.
+  intros g s O H. unfold sm_enable. cbv zeta. apply XO_set_sm_enabled, XO_set_sm_sent. apply XO_send_gated; [ | eauto 20 with xodb].
+  refine (conj O (conj _ (conj eq_refl eq_refl))). left; reflexivity.
+Qed.
+Lemma first_scram_mem : forall k i l n, first_scram i k l = Some n -> mem_mech (MScram n) l = true.
+Proof. induction k; intros i l n; cbn; [discriminate|]. destruct (mem_mech (MScram i) l) eqn:E; [intros Q; inversion Q; subst; exact E | apply IHk]. Qed.
+Lemma XO_auth : forall g fuel n s, sm_enabled s = false -> XO g s -> XO g (fst (auth fuel n s)).
+Proof.
+  intros g. induction fuel; intros n s S H; name_result; cbn [auth]; unfold ret; cases; leaf; eauto 20 with xodb.
+  all: try (apply IHfuel; [exact S | eauto 20 with xodb]).
+  all: pose proof H as H'; xo_dest H'.
+  all: try (apply XO_set_tls_support_false).
+  all: try (apply XO_set_scram_serial).
+  all: try (apply XO_set_sasl; [intros m' Hm'; apply X1; eapply mem_mech_del; exact Hm' | ]).
+  all: apply XO_send_gated; [ | eauto 20 with xodb];
+    (refine (conj _ (conj _ (conj eq_refl eq_refl))); [cbn [jg]; auto | right; right; split; [reflexivity | smoff]]).
+  all: apply X1; first [ assumption | eapply first_scram_mem; eassumption
+                       | match goal with Hq : _ && _ = true |- _ => apply andb_prop in Hq; apply Hq end ].
+Qed.
+
+(* what a dispatched <stream:features/> told the observer *)
+Definition Rxg (e : elem) (g : ghost) : Prop :=
+  (e_starttls e = true -> g_offer_tls g = true) /\
+  (forall m, mem_mech m (e_mechs e) = true -> mem_mech m (g_offered g) = true) /\
+  (e_zlib e = true -> g_offer_zlib g = true) /\ (e_bind e = true -> g_offer_bind g = true) /\
+  (e_session e = true -> g_offer_session g = true) /\ (e_sm e = true -> g_offer_sm g = true).
+Definition is_feat (k : hkind) : bool := match k with HFeatures | HFeaturesSasl | HFeaturesCompress => true | _ => false end.
+Lemma Rxg_mono : forall e g g', GFr g g' -> Rxg e g -> Rxg e g'.
+Proof. intros e g g' F (A & B & C & D & E & G). repeat split; intros; apply F; auto. Qed.
+Lemma Rxg_offers : forall e g, Rxg e (set_g_offer_tls (g_offer_tls g || e_starttls e) (set_g_offered (g_offered g ++ e_mechs e)
+        (set_g_offer_zlib (g_offer_zlib g || e_zlib e) (set_g_offer_bind (g_offer_bind g || e_bind e)
+        (set_g_offer_session (g_offer_session g || e_session e) (set_g_offer_sm (g_offer_sm g || e_sm e) g)))))).
+Proof.
+  intros e g. destruct g. refine (conj _ (conj _ (conj _ (conj _ (conj _ _))))); cbn; try (intros H; rewrite H; apply orb_true_r).
+  intros m Hm. unfold mem_mech in *. rewrite existsb_app, Hm. apply orb_true_r.
+Qed.
+Lemma note_rx_records : forall e s, e_ns e = NsStreams -> e_name e = NmFeatures -> Rxg e (gh (note_rx e s)).
+Proof.
+  intros e s N M. pose proof (Rxg_offers e (gh s)) as B.
+  unfold note_rx. cbv zeta. sproj. rewrite N, M. cbn [ns_eqb ename_eqb andb].
+  revert B. match goal with |- Rxg e ?y -> _ => generalize y end. intros g0 B.
+  eapply Rxg_mono; [|exact B].
+  cases; eauto 10 with frdb.
+Qed.
+Lemma filter_feat : forall k e, is_feat k = true -> filter_match k e = true -> e_ns e = NsStreams /\ e_name e = NmFeatures.
+Proof.
+  intros k e K. destruct k; try discriminate; unfold filter_match;
+    match goal with |- context [hfilter ?k] => let v := eval vm_compute in (hfilter k) in change (hfilter k) with v end;
+    intros H; apply andb_prop in H; destruct H as [A B];
+    (split; [destruct (e_ns e); try discriminate; reflexivity | destruct (e_name e); try discriminate; reflexivity]).
+Qed.
+
+Lemma XO_sasl_result : forall g n e s, sm_enabled s = false -> XO g s -> XO g (fst (sasl_result n e s)).
+Proof.
+  intros g n e s S H. name_result. unfold sasl_result, ret. cases; leaf; eauto 20 with xodb. apply XO_auth; assumption.
+Qed.
+Lemma XO_set_bind_required : forall g b s, (b = true -> g_offer_bind g = true) -> XO g s -> XO g (set_bind_required b s).
+Proof. intros g b s B H. xo_dest H. xo_split; auto. Qed.
+Lemma XO_set_session_required : forall g b s, (b = true -> g_offer_session g = true) -> XO g s -> XO g (set_session_required b s).
+Proof. intros g b s B H. xo_dest H. xo_split; auto. Qed.
+Lemma XO_set_sm_support : forall g b s, (b = true -> g_offer_sm g = true) -> XO g s -> XO g (set_sm_support b s).
+Proof. intros g b s B H. xo_dest H. xo_split; auto. Qed.
+Lemma XO_set_sm_bind_saved : forall g b s, (b = true -> g_offer_bind g = true) -> XO g s -> XO g (set_sm_bind_saved b s).
+Proof. intros g b s B H. xo_dest H. xo_split; auto. Qed.
+Lemma XO_set_comp_supported : forall g b s, (b = true -> g_offer_zlib g = true) -> XO g s -> XO g (set_comp_supported b s).
+Proof. intros g b s B H. xo_dest H. xo_split; auto. Qed.
+Lemma XO_set_tls_support : forall g b s, (b = true -> g_offer_tls g = true) -> XO g s -> XO g (set_tls_support b s).
+Proof. intros g b s B H. xo_dest H. xo_split; auto. Qed.
+
+#[export] Hint Extern 1 (XO _ (set_bind_required _ _)) => (apply XO_set_bind_required; [intros; auto | ]) : xodb.
+#[export] Hint Extern 1 (XO _ (set_session_required _ _)) => (apply XO_set_session_required; [intros; auto | ]) : xodb.
+#[export] Hint Extern 1 (XO _ (set_sm_support _ _)) => (apply XO_set_sm_support; [intros; auto | ]) : xodb.
+#[export] Hint Extern 1 (XO _ (set_sm_bind_saved _ _)) => (apply XO_set_sm_bind_saved; [intros; auto | ]) : xodb.
+#[export] Hint Extern 1 (XO _ (set_comp_supported _ _)) => (apply XO_set_comp_supported; [intros; auto | ]) : xodb.
+#[export] Hint Extern 1 (XO _ (set_tls_support _ _)) => (apply XO_set_tls_support; [intros; auto | ]) : xodb.
+Lemma XO_features_sasl : forall g n e s, Rxg e g -> sm_enabled s = false -> XO g s -> XO g (fst (features_sasl n e s)).
+Proof.
+  intros g n e s (R1 & R2 & R3 & R4 & R5 & R6) S H. name_result. unfold features_sasl. cbv zeta.
+  match goal with |- context [negb (f_sm_disable ?x)] => set (s3 := x) end.
+  assert (H3 : XO g s3).
+  { unfold s3. cases; eauto 10 with xodb. }
+  assert (S3 : sm_enabled s3 = false) by (unfold s3; cases; smoff).
+  clearbody s3. unfold ret. pose proof H3 as H3'. xo_dest H3'.
+  cases; leaf.
+  - apply XO_h_add. apply XO_send_gated.
+    + refine (conj _ (conj _ (conj eq_refl eq_refl))); [cbn [jg]; apply X7 | left; reflexivity].
+      match goal with Hq : _ && _ = true |- _ => destruct (sm_support s3); auto; rewrite andb_false_r in Hq; cbn in Hq; discriminate end.
+    + eauto 10 with xodb.
+  - apply XO_do_bind; auto.
+  - apply XO_xmpp_disconnect; exact H3.
+Qed.
+
+Lemma mem_add_mech : forall m x l, mem_mech m (add_mech x l) = true -> mem_mech m l = true \/ mech_eqb m x = true.
+Proof.
+  intros m x l. unfold add_mech. destruct (mem_mech x l); auto. rewrite mem_mech_app. intros H. apply orb_prop in H.
+  destruct H as [H|H]; auto. right. cbn in H. rewrite orb_false_r in H. exact H.
+Qed.
+Lemma mem_fold_add : forall m l acc, mem_mech m (fold_left (fun a x => add_mech x a) l acc) = true ->
+  mem_mech m acc = true \/ mem_mech m l = true.
+Proof.
+  intros m l. induction l as [|x l IH]; intros acc H; cbn in *; auto.
+  destruct (IH _ H) as [A|A]; [destruct (mem_add_mech _ _ _ A) as [B|B]; [left; exact B | right; unfold mem_mech; cbn; rewrite B; reflexivity]
+                               | right; unfold mem_mech in *; cbn; rewrite A; apply orb_true_r].
+Qed.
+Lemma mem_filter : forall m f l, mem_mech m (filter f l) = true -> mem_mech m l = true.
+Proof.
+  intros m f l. unfold mem_mech. induction l as [|x l IH]; cbn; auto. destruct (f x); cbn; intros H;
+    [apply orb_prop in H; destruct H as [H|H]; [rewrite H; reflexivity | rewrite (IH H); apply orb_true_r] | rewrite (IH H); apply orb_true_r].
+Qed.
+Lemma SE_q_off : forall k s, PH s -> is_q k = true -> h_has k s = true -> sm_enabled s = false.
+Proof.
+  intros k s P Q Hk. destruct (sm_enabled s) eqn:E; auto. destruct (ph_se _ P E) as (A & _). pose proof (qmarks_pos k s Q Hk). lia.
+Qed.
+
+Lemma XO_call_handler : forall g k n e s, PH s -> h_has k s = true -> (is_feat k = true -> Rxg e g) -> XO g s ->
+  XO g (fst (fst (call_handler k n e s))).
+Proof.
+  intros g k n e s P Hk Rx H.
+  assert (S : is_q k = true -> sm_enabled s = false) by (intros Q; exact (SE_q_off k s P Q Hk)).
+  destruct k; cbn [is_q is_feat] in *.
+  - cbn. exact H.
+  - cbn. eauto with xodb.
+  - (* _handle_features *)
+    specialize (S eq_refl). destruct (Rx eq_refl) as (R1 & R2 & R3 & R4 & R5 & R6).
+    name_result. unfold call_handler. cbv zeta.
+    match goal with |- context [auth 1 n ?x] => assert (Hx : XO g x /\ sm_enabled x = false) end.
+    { split; [|unfold timed_del; cases; smoff].
+      pose proof H as H'. xo_dest H'.
+      cases; repeat first [ apply XO_set_sasl; [intros m Hm; try (apply mem_mech_del in Hm);
+                              destruct (mem_fold_add _ _ _ Hm) as [Hm1|Hm1]; [apply X1; revert Hm1; unfold timed_del; sproj; auto | apply R2; eapply mem_filter; exact Hm1] | ] ];
+        eauto 10 with xodb. }
+    destruct Hx as [Hx Sx]. pose proof (XO_auth g 1 n _ Sx Hx) as Q.
+    match goal with |- context [auth 1 n ?x] => destruct (auth 1 n x) as [s4 o4] end. leaf. exact Q.
+  - (* _handle_proceedtls_default *)
+    specialize (S eq_refl).
+    assert (T0 : tls_present s = false).
+    { destruct (ph_ti _ P) as (_ & I6 & I1). destruct (tls_present s) eqn:E; auto. rewrite (I1 (I6 eq_refl)) in Hk. discriminate. }
+    name_result. unfold call_handler. destruct (e_name e); leaf; auto.
+    pose proof (XO_conn_tls_start g s (or_intror T0) H) as Q.
+    destruct (conn_tls_start s) as [[s1 o1] ok]. cbn [fst] in Q. destruct ok; leaf; cbn [fst]; eauto 10 with xodb.
+  - specialize (S eq_refl). name_result. unfold call_handler. pose proof (XO_sasl_result g n e s S H) as Q.
+    destruct (sasl_result n e s). leaf. exact Q.
+  - specialize (S eq_refl). name_result. unfold call_handler. pose proof (XO_sasl_result g n e s S H) as Q.
+    destruct (e_name e); try (destruct (sasl_result n e s); leaf; exact Q). cases; leaf; eauto 10 with xodb.
+  - specialize (S eq_refl). name_result. unfold call_handler. pose proof (XO_sasl_result g n e s S H) as Q.
+    destruct (e_name e); try (destruct (sasl_result n e s); leaf; exact Q). leaf; eauto 10 with xodb.
+  - specialize (S eq_refl). name_result. unfold call_handler. pose proof (XO_sasl_result g n e s S H) as Q.
+    destruct (e_name e); try (destruct (sasl_result n e s); leaf; exact Q). cases; leaf; eauto 10 with xodb.
+  - specialize (S eq_refl). name_result. unfold call_handler. pose proof (XO_features_sasl g n e s (Rx eq_refl) S H) as Q.
+    destruct (features_sasl n e s). leaf. exact Q.
+  - (* _handle_features_compress *)
+    specialize (S eq_refl). destruct (Rx eq_refl) as (R1 & R2 & R3 & R4 & R5 & R6).
+    name_result. unfold call_handler. cbv zeta.
+    match goal with |- context [comp_supported ?x] => set (s1 := x) end.
+    assert (H1 : XO g s1).
+    { unfold s1. match goal with |- context [if ?c then _ else _] => destruct c eqn:Cq end; [|apply XO_timed_del; exact H].
+      apply andb_prop in Cq. destruct Cq as [_ Cq]. apply XO_set_comp_supported; [intros _; exact (R3 Cq) | apply XO_timed_del; exact H]. }
+    assert (S1 : sm_enabled s1 = false) by (unfold s1; cases; smoff).
+    clearbody s1. pose proof H1 as H1'. xo_dest H1'. destruct (comp_supported s1) eqn:C.
+    + leaf. apply XO_h_add. apply XO_send_raw_m; auto.
+      refine (conj _ (conj _ (conj eq_refl eq_refl))); [cbn [jg]; auto | right; right; split; [reflexivity | exact S1]].
+    + pose proof (XO_features_sasl g n e s1 (Rx eq_refl) S1 H1) as Q. destruct (features_sasl n e s1). leaf. exact Q.
+  - name_result. unfold call_handler. cases; leaf; eauto 10 with xodb.
+  - (* _handle_sm *)
+    name_result. unfold call_handler, ret. pose proof H as H'. xo_dest H'.
+    cases; leaf; eauto 20 with xodb.
+    all: try (apply XO_set_sm_enabled).
+    all: apply XO_do_bind; [ apply X5; match goal with Hq : sm_bind_saved _ = true |- _ => revert Hq; unfold sm_queue_cleanup; sproj; auto end
+                           | unfold sm_queue_cleanup; sproj; reflexivity | eauto 20 with xodb ].
+  - name_result. unfold call_handler, ret. cases; leaf; eauto 10 with xodb.
+Qed.
+
+Lemma SE_id_off : forall s, PH s -> id_has IKBind s = true -> sm_enabled s = false.
+Proof. intros s P H. destruct (sm_enabled s) eqn:E; auto. destruct (ph_se _ P E) as (_ & B & _). congruence. Qed.
+Lemma XO_call_id_handler : forall g k n e s, PH s -> id_has k s = true -> XO g s -> XO g (fst (call_id_handler k n e s)).
+Proof.
+  intros g k n e s P Hk H. destruct k.
+  - (* _handle_bind *)
+    pose proof (SE_id_off s P Hk) as S.
+    name_result. unfold call_id_handler, ret. cbv zeta. destruct (e_type e); try (leaf; eauto 10 with xodb; fail).
+    match goal with |- context [session_required ?x] => set (s1 := x) end.
+    assert (H1 : XO g s1) by (unfold s1; cases; eauto 10 with xodb).
+    assert (S1 : sm_enabled s1 = false) by (unfold s1; cases; smoff).
+    clearbody s1. pose proof H1 as H1'. xo_dest H1'. cases; leaf.
+    + apply XO_session_start; auto.
+    + apply XO_sm_enable; auto. apply X7. match goal with Hq : _ && _ = true |- _ => apply andb_prop in Hq; apply Hq end.
+    + eauto 10 with xodb.
+  - name_result. unfold call_id_handler, ret. cbv zeta. pose proof H as H'. xo_dest H'.
+    cases; leaf; eauto 10 with xodb.
+    apply XO_sm_enable; [ | eauto 10 with xodb]. apply X7.
+    match goal with Hq : _ && _ = true |- _ => apply andb_prop in Hq; destruct Hq as [Hq _]; revert Hq; unfold timed_del; sproj; auto end.
+  - name_result. unfold call_id_handler, ret. cases; leaf; eauto 10 with xodb.
+Qed.
+
+(* ------------------------------------------------------------------ lifting XO along an iteration *)
+Definition XOs (s : state) : Prop := XO (gh s) s.
+Lemma XOs_of : forall s s', XO (gh s) s' -> Fr s s' -> XOs s'.
+Proof. intros s s' H F. unfold XOs. eapply XO_mono; [apply (fr_gh _ _ F) | exact H]. Qed.
+Lemma Fr_dispatch_from : forall n e s0 s, Fr s0 (note_rx e s) -> Fr s0 (fst (dispatch n e s)).
+Proof. intros. name_result. unfold dispatch, ret. cases; leaf; eauto 30 with frdb. Qed.
+
+Lemma XO_h_del' : forall g k s, XO g s -> XO g (h_del k s). Proof. intros; apply XO_h_del; auto. Qed.
+Section XOVisit.
+Variables (g : ghost) (n : Z) (e : elem).
+Hypothesis HR : e_ns e = NsStreams -> e_name e = NmFeatures -> Rxg e g.
+Lemma XO_visit : forall r k, PH (fst r) /\ DL (fst r) /\ XO g (fst r) ->
+  PH (fst (visit n e r k)) /\ DL (fst (visit n e r k)) /\ XO g (fst (visit n e r k)).
+Proof.
+  intros [s o] k (P & L & H). pose proof (PH_visit n e (s, o) k (conj P L)) as [P1 L1]. refine (conj P1 (conj L1 _)).
+  cbn [fst] in *. unfold visit.
+  destruct (crashed s); auto. destruct (negb (h_has k s)) eqn:E; auto. apply negb_false_iff in E.
+  destruct (hkind_eqb k HUser && negb (neg_done s)); auto. destruct (negb (filter_match k e)) eqn:Fm; auto. apply negb_false_iff in Fm.
+  assert (Rx : is_feat k = true -> Rxg e g) by (intros K; destruct (filter_feat k e K Fm); auto).
+  pose proof (XO_call_handler g k n e s P E Rx H) as Q.
+  destruct (call_handler k n e s) as [[s1 o1] keep]. cbn [fst] in *. destruct keep; auto using XO_h_del'.
+Qed.
+Lemma XO_fold_visit : forall l s o, PH s -> DL s -> XO g s ->
+  PH (fst (fold_left (visit n e) l (s, o))) /\ DL (fst (fold_left (visit n e) l (s, o))) /\ XO g (fst (fold_left (visit n e) l (s, o))).
+Proof.
+  intros l s o P L H. apply (fold_left_inv (fun r => PH (fst r) /\ DL (fst r) /\ XO g (fst r))); auto. intros; apply XO_visit; auto.
+Qed.
+End XOVisit.
+
+Lemma XOs_dispatch : forall n e s, PH s -> DL s -> XOs s -> XOs (fst (dispatch n e s)).
+Proof.
+  intros n e s0 P0 L0 H0.
+  pose proof (Fr_dispatch_from n e (note_rx e s0) s0 (Fr_refl _)) as F.
+  apply (XOs_of (note_rx e s0)); [|exact F]. clear F.
+  assert (H1 : XO (gh (note_rx e s0)) (note_rx e s0)).
+  { apply XO_note_rx. eapply XO_mono; [apply GFr_note_rx | exact H0]. }
+  assert (HR : e_ns e = NsStreams -> e_name e = NmFeatures -> Rxg e (gh (note_rx e s0))) by (intros; apply note_rx_records; auto).
+  unfold dispatch.
+  pose proof (PH_note_rx e s0 P0) as P1. pose proof (DL_note_rx e s0 L0) as L1.
+  revert HR H1. generalize (gh (note_rx e s0)). intros g HR H1.
+  generalize dependent (note_rx e s0). clear s0 P0 L0 H0. intros s P1 L1 H1.
+  destruct (negb (sm_alloc s)); [cbn [fst]; eauto with xodb|].
+  pose proof (PH_enable_all s P1) as P2. pose proof (DL_enable_all s L1) as L2.
+  assert (H2 : XO g (set_handlers (map (fun x : hkind * bool => (fst x, true)) (handlers s)) s)) by eauto with xodb.
+  generalize dependent (set_handlers (map (fun x : hkind * bool => (fst x, true)) (handlers s)) s). clear s P1 L1 H1. intros s P2 L2 H2.
+  cbv zeta.
+  match goal with |- context [let '(s1, o1) := ?r in _] => assert (R : PH (fst r) /\ DL (fst r) /\ XO g (fst r)) end.
+  { destruct (idk_of (e_id e)) as [k|]; [|cbn; auto]. destruct (id_has k s) eqn:Hk; [|cbn; auto].
+    pose proof (PH_id_step k n e s P2 L2 Hk) as [T1 T2]. pose proof (XO_call_id_handler g k n e s P2 Hk H2) as T3.
+    destruct (call_id_handler k n e s) as [s1 o1]. cbn [fst] in *. refine (conj T1 (conj T2 _)). unfold id_del. eauto with xodb. }
+  match goal with |- context [let '(s1, o1) := ?r in _] => destruct r as [s1 o1] end. cbn [fst] in R. destruct R as (P3 & L3 & H3).
+  pose proof (XO_fold_visit g n e HR (map fst (filter (fun x => snd x) (handlers s1))) s1 o1 P3 L3 H3) as (P4 & L4 & H4).
+  destruct (fold_left (visit n e) (map fst (filter (fun x => snd x) (handlers s1))) (s1, o1)) as [s3 o3]. cbn [fst] in *.
+  destruct (crashed s3); [cbn; auto|]. destruct (sm_enabled s3); cbn [fst]; eauto with xodb.
+Qed.
+
+Lemma XO_open_handler : forall g n s, XO g s -> XO g (fst (open_handler n s)).
+Proof. intros g n s H. name_result. unfold open_handler, ret. cases; leaf; eauto 20 with xodb. Qed.
+Lemma XO_stream_start : forall g n a b s, XO g s -> XO g (fst (stream_start n a b s)).
+Proof. intros g n a b s H. name_result. unfold stream_start. cases; leaf; [apply XO_open_handler|]; eauto 20 with xodb. Qed.
+Lemma XO_stream_end : forall g s, XO g s -> XO g (fst (stream_end s)).
+Proof. intros g s H. name_result. unfold stream_end. cases; leaf; eauto 20 with xodb. Qed.
+
+Lemma XOs_feed_item : forall n it s, FI s -> XOs s -> XOs (fst (fst (feed_item n it s))).
+Proof.
+  intros n it s (P & L & F) H.
+  assert (Gen : forall s', XO (gh s) s' -> Fr s s' -> XOs s') by (intros; eapply XOs_of; eauto).
+  pose proof (Fr_feed_item n it s s (Fr_refl s)) as Ff.
+  unfold feed_item in *.
+  destruct (ps s) eqn:Ps; cbn [ps_live] in L;
+    destruct it as [h|e| |]; try (cases; cbn [fst] in *; apply Gen; eauto 20 with xodb; fail).
+  - (* header at depth 0 *)
+    pose proof (XO_stream_start (gh s) n true h _ (XO_set_ps _ POpen s H)) as Q.
+    destruct (stream_start n true h (set_ps POpen s)) as [s1 o1]. cbn [fst] in *. apply Gen; auto.
+  - (* element at depth 0 *)
+    destruct (ns_eqb (e_ns e) NsStreams); [cbn [fst] in *; apply Gen; eauto with xodb|].
+    pose proof (XO_stream_start (gh s) n (ename_eqb (e_name e) NmStream) false _ (XO_set_ps _ PClosed s H)) as Q.
+    destruct (stream_start n (ename_eqb (e_name e) NmStream) false (set_ps PClosed s)) as [s1 o1]. cbn [fst] in *.
+    destruct (crashed s1); [cbn [fst] in *; apply Gen; auto|].
+    pose proof (XO_stream_end (gh s) s1 Q) as Q2. destruct (stream_end s1) as [s2 o2]. cbn [fst] in *. apply Gen; auto.
+  - (* element on an open stream *)
+    pose proof (XOs_dispatch n e s P (L eq_refl) H) as Q. destruct (dispatch n e s) as [s1 o1]. exact Q.
+  - (* </stream:stream> *)
+    pose proof (XO_stream_end (gh s) _ (XO_set_ps _ PClosed s H)) as Q.
+    destruct (stream_end (set_ps PClosed s)) as [s1 o1]. cbn [fst] in *. apply Gen; auto.
+  - (* end of a swallowed nested stream element *)
+    destruct n0 as [|[|m]]; try (cbn [fst] in *; apply Gen; eauto with xodb; fail).
+    assert (H1 : XOs (set_ps POpen s)) by (unfold XOs; apply XO_set_ps; exact H).
+    pose proof (XOs_dispatch n (nested_stream_elem cns) _ (PH_set_ps POpen s eq_refl P) (DL_set_ps POpen s (L eq_refl)) H1) as Q.
+    destruct (dispatch n (nested_stream_elem cns) (set_ps POpen s)) as [s1 o1]. exact Q.
+Qed.
+Lemma XOs_feed_items : forall n its s, FI s -> XOs s -> XOs (fst (fst (feed_items n its s))).
+Proof.
+  induction its as [|it r IH]; intros s F H; cbn [feed_items]; [exact H|].
+  destruct (crashed s); [exact H|].
+  pose proof (FI_feed_item n it s F) as F1. pose proof (XOs_feed_item n it s F H) as H1.
+  destruct (feed_item n it s) as [[s1 o1] bad]. cbn [fst] in *.
+  destruct bad; [exact H1|]. specialize (IH s1 F1 H1). destruct (feed_items n r s1) as [[s2 o2] bad2]. exact IH.
+Qed.
+
+(* timed handlers *)
+Lemma XO_call_timed : forall g k n s, PH s -> timed_has k s = true -> XO g s -> XO g (fst (fst (call_timed k n s))).
+Proof.
+  intros g k n s P T H. destruct k; unfold call_timed; cbn [fst]; eauto 10 with xodb.
+  - destruct (proj2 (ph_t01 _ P) T) as [_ F0].
+    pose proof (XO_auth g 1 n s (SE_q_off HFeatures s P eq_refl F0) H) as Q. destruct (auth 1 n s). exact Q.
+  - pose proof (XO_conn_disconnect g s H) as Q. destruct (conn_disconnect s). exact Q.
+Qed.
+Lemma XO_visit_timed : forall g n r k, PH (fst r) /\ XO g (fst r) -> PH (fst (visit_timed n r k)) /\ XO g (fst (visit_timed n r k)).
+Proof.
+  intros g n [s o] k [P H]. split; [apply PH_visit_timed; exact P|]. cbn [fst] in *. unfold visit_timed.
+  destruct (crashed s); auto. destruct (timed_lookup k s) as [[en stp]|] eqn:E; auto.
+  destruct (negb en); auto. destruct (tkind_eqb k TUser && negb (neg_done s)); auto.
+  destruct (n - stp >=? tperiod s k); auto.
+  assert (T : timed_has k (timed_set_stamp k n s) = true) by (rewrite timed_has_timed_set_stamp; eapply timed_lookup_has; eauto).
+  pose proof (XO_call_timed g k n _ (PH_timed_set_stamp k n s P) T (XO_timed_set_stamp g k n s H)) as Q.
+  destruct (call_timed k n (timed_set_stamp k n s)) as [[s2 o2] keep]. cbn [fst] in *. destruct keep; eauto with xodb.
+Qed.
+Lemma XO_fire_timed : forall g n s, PH s -> XO g s -> XO g (fst (fire_timed n s)).
+Proof.
+  intros g n s P H. unfold fire_timed, ret. destruct (st s); auto.
+  apply (fold_left_inv (fun r => PH (fst r) /\ XO g (fst r))); [intros; apply XO_visit_timed; auto|]. cbn [fst]. split; [|eauto with xodb].
+  pose proof (PH_fire_timed n s P) as Q. clear Q.
+  apply (PH_neutral s); [apply HFr_set_timed, HFr_refl | apply TI_set_timed, P | apply T01_enable_timed, P
+    | apply (MT_of (set_timed _)); [apply CS_set_timed | apply PL_set_timed | apply P]
+    | apply SmOff_set_timed, P | apply Sn_set_timed, Sn_refl | apply T25_set_timed, P | exact P].
+Qed.
+Lemma XOs_fire_timed : forall n s, PH s -> XOs s -> XOs (fst (fire_timed n s)).
+Proof. intros n s P H. apply (XOs_of s); [apply XO_fire_timed; auto | eauto with frdb]. Qed.
+
+(* the send phase: the queue is flushed; countable elements are retained for retransmission *)
+Lemma smq_plain_app : forall a b, smq_plain (a ++ b) = smq_plain a && smq_plain b.
+Proof. intros; unfold smq_plain; apply forallb_app. Qed.
+Lemma stamped_plain : forall (q : list (welem * bool * bool)) z acc,
+  qown q = true -> smq_plain acc = true ->
+  smq_plain (snd (fold_left (fun a x => (fst a + 1, snd a ++ [(fst (fst x), snd (fst x), snd x, fst a)]))
+                            (filter (fun x => negb (snd x)) q) (z, acc))) = true.
+Proof.
+  induction q as [|x q IH]; intros z acc Q A; cbn [filter fold_left snd]; auto.
+  cbn [qown forallb] in Q. apply andb_prop in Q. destruct Q as [Q1 Q2].
+  destruct (snd x) eqn:S; cbn [negb]; [apply IH; auto|]. cbn [fold_left]. apply IH; auto.
+  cbn [fst snd]. rewrite smq_plain_app, A. cbn. cbn [orb] in Q1. rewrite Q1. reflexivity.
+Qed.
+Lemma XO_send_phase : forall g s, XO g s -> XO g (fst (send_phase s)).
+Proof.
+  intros g s H. unfold send_phase, ret. destruct (st s) eqn:C; auto. cbv zeta.
+  match goal with |- context [negb (err ?z =? 0)] => set (y := z) end. assert (Hy : XO g y).
+  { unfold y. pose proof H as H'. xo_dest H'. apply XO_set_sm_sent. xo_split; auto; sproj; try reflexivity.
+    rewrite smq_plain_app, X10. cbn [andb]. destruct (sm_enabled s); [apply stamped_plain; auto | reflexivity]. }
+  clearbody y.
+  destruct (negb (err y =? 0)); [|exact Hy].
+  pose proof (XO_conn_disconnect g _ (XO_set_err g ECONNABORTED y Hy)) as Q.
+  destruct (conn_disconnect (set_err ECONNABORTED y)). exact Q.
+Qed.
+
+(* ------------------------------------------------------------------ phases *)
+Lemma XO_same_offers : forall g g' s, g_offer_tls g' = g_offer_tls g -> g_offered g' = g_offered g -> g_offer_zlib g' = g_offer_zlib g ->
+  g_offer_bind g' = g_offer_bind g -> g_offer_session g' = g_offer_session g -> g_offer_sm g' = g_offer_sm g -> XO g s -> XO g' s.
+Proof.
+  intros g g' s E1 E2 E3 E4 E5 E6 H. xo_dest H. xo_split; rewrite ?E1, ?E2, ?E3, ?E4, ?E5, ?E6; auto.
+  eapply qall_mono; [|exact X8]. intros w. destruct w; cbn; rewrite ?E1, ?E2, ?E3, ?E4, ?E5, ?E6; auto.
+Qed.
+Lemma XOs_note_outs : forall outs s, XOs s -> XOs (note_outs outs s).
+Proof.
+  intros outs s H. unfold XOs, note_outs. sproj. apply XO_set_gh.
+  assert (E : forall g, g_offer_tls (fold_left note_out outs g) = g_offer_tls g /\ g_offered (fold_left note_out outs g) = g_offered g /\
+    g_offer_zlib (fold_left note_out outs g) = g_offer_zlib g /\ g_offer_bind (fold_left note_out outs g) = g_offer_bind g /\
+    g_offer_session (fold_left note_out outs g) = g_offer_session g /\ g_offer_sm (fold_left note_out outs g) = g_offer_sm g).
+  { induction outs as [|o outs IH]; intros g; cbn [fold_left]; [repeat split; reflexivity|].
+    destruct (IH (note_out g o)) as (A & B & C & D & E & F). rewrite A, B, C, D, E, F.
+    destruct g; destruct o as [| | | |[|]| | | | | | | | |]; cbn; repeat split; reflexivity. }
+  destruct (E (gh s)) as (A & B & C & D & E' & F). eapply XO_same_offers; eauto.
+Qed.
+
+Definition XS (s : state) : Prop := PHS s /\ XOs s /\ U2 s.
+Lemma XOs_same_gh : forall s s', gh s' = gh s -> XO (gh s) s' -> XOs s'.
+Proof. intros s s' E H. unfold XOs. rewrite E. exact H. Qed.
+
+Lemma GFr_send_phase : forall s, GFr (gh s) (gh (fst (send_phase s))).
+Proof.
+  intros s. unfold send_phase, ret. destruct (st s); try apply GFr_refl. cbv zeta.
+  match goal with |- context [negb (err ?z =? 0)] => set (y := z) end.
+  assert (E : gh y = gh s) by reflexivity. clearbody y.
+  destruct (negb (err y =? 0)); [|cbn [fst]; rewrite E; apply GFr_refl].
+  pose proof (Fr_conn_disconnect (set_err ECONNABORTED y) _ (Fr_refl _)) as F.
+  destruct (conn_disconnect (set_err ECONNABORTED y)) as [s2 o2]. cbn [fst] in *. rewrite <- E. exact (fr_gh _ _ F).
+Qed.
+Lemma U2_send_phase : forall s, U2 s -> U2 (fst (send_phase s)).
+Proof.
+  intros s H. unfold send_phase, ret. destruct (st s) eqn:C; auto. cbv zeta.
+  match goal with |- context [negb (err ?z =? 0)] => set (y := z) end.
+  assert (Hy : U2 y) by (intros X; exfalso; revert X; unfold y; sproj; congruence). clearbody y.
+  destruct (negb (err y =? 0)); [|exact Hy].
+  pose proof (U2_conn_disconnect _ (U2_set_err ECONNABORTED y Hy)) as Q. destruct (conn_disconnect (set_err ECONNABORTED y)). exact Q.
+Qed.
+Lemma XS_ph_pre : forall rd s, XS s -> XS (ph_pre rd s).
+Proof.
+  intros rd s (A & B & C). refine (conj (PHS_ph_pre rd s A) (conj _ _)); unfold ph_pre, XOs in *; cases; auto.
+  all: first [apply U2_set_rxq; exact C | sproj; apply XO_set_rxq; exact B].
+Qed.
+Lemma XS_send_phase : forall s, XS s -> XS (fst (send_phase s)).
+Proof.
+  intros s (A & B & C). refine (conj (PHS_send_phase s A) (conj _ (U2_send_phase s C))).
+  unfold XOs. eapply XO_mono; [apply GFr_send_phase | apply XO_send_phase; exact B].
+Qed.
+Lemma XS_ph_reset : forall s, XS s -> XS (ph_reset s) /\ reset_parser (ph_reset s) = false.
+Proof.
+  intros s (A & B & C). destruct (PHS_ph_reset s A) as [A1 R1]. split; [|exact R1].
+  refine (conj A1 (conj _ _)); unfold ph_reset, XOs in *; cases; auto.
+  all: first [apply U2_set_ps, U2_set_reset_parser; exact C | sproj; apply XO_set_ps, XO_set_reset_parser; exact B].
+Qed.
+Lemma XS_fire_timed : forall n s, XS s -> XS (fst (fire_timed n s)).
+Proof.
+  intros n s (A & B & C). refine (conj (PHS_fire_timed n s A) (conj (XOs_fire_timed n s (proj1 A) B) (U2_fire_timed n s C))).
+Qed.
+Lemma XO_timeout : forall g e s, XO g s -> XO g (reset_sm_for_reconnect (set_neg_done false (set_st Disconnected (set_err e s)))).
+Proof. intros; eauto 10 with xodb. Qed.
+Lemma XS_ph_watch : forall n s, XS s -> reset_parser s = false -> XS (fst (ph_watch n s)) /\ reset_parser (fst (ph_watch n s)) = false.
+Proof.
+  intros n s (A & B & C) R. destruct (PHS_ph_watch n s A R) as [A1 R1]. split; [|exact R1].
+  refine (conj A1 (conj _ (U2_ph_watch n s C))).
+  pose proof (Tr_ph_watch n s s [] (Tr_refl s)) as T. apply (XOs_of s); [|apply (tr_fr _ _ _ T)].
+  unfold ph_watch, ret. cases; cbn [fst]; auto; try apply XO_connect_next; auto.
+  all: apply XO_timeout, XO_connect_next; exact B.
+Qed.
+Lemma XO_set_st_connected : forall g s, sendq s = [] -> st s = Connecting -> XO g s -> XO g (set_st Connected s).
+Proof.
+  intros g s Q C H. xo_dest H. xo_split; auto; sproj; intros; rewrite ?Q; try reflexivity.
+  all: first [apply X13; congruence | apply X12; congruence].
+Qed.
+Lemma XO_conn_established : forall g n s, tls_present s = false -> XO g s -> XO g (fst (conn_established n s)).
+Proof.
+  intros g n s T H. name_result. unfold conn_established.
+  destruct (f_legacy_ssl s && negb (is_raw s)).
+  - pose proof (XO_conn_tls_start g s (or_intror T) H) as Q. destruct (conn_tls_start s) as [[sa oa] ok]. cbn [fst] in Q.
+    cases; leaf; eauto 20 with xodb.
+  - cases; leaf; eauto 20 with xodb.
+Qed.
+Lemma XS_ph_io : forall n s, XS s -> reset_parser s = false -> XS (fst (ph_io n s)).
+Proof.
+  intros n s (A & B & C) R. refine (conj (PHS_ph_io n s A R) (conj _ (U2_ph_io n s C))).
+  unfold ph_io, ret. destruct (st s) eqn:St; auto.
+  - (* Connecting *)
+    destruct (proj1 (proj2 A) St) as (C1 & C2 & C3 & C4).
+    destruct (cur_ep s) eqn:E; auto.
+    + set (x := set_st Connected s).
+      assert (Hx : XO (gh s) x) by (apply XO_set_st_connected; auto).
+      pose proof (XO_conn_established (gh s) n x C4 Hx) as Q. pose proof (Fr_conn_established n x x (Fr_refl x)) as F.
+      unfold XOs. eapply XO_mono; [exact (fr_gh _ _ F) | exact Q].
+    + pose proof (Tr_connect_next n s s [] (Tr_refl s)) as T. pose proof (XO_connect_next (gh s) n s B) as Q.
+      destruct (connect_next n s) as [[s1 o1] ok]. cbn [fst] in *. destruct ok; cbn [fst].
+      * apply (XOs_of s); [exact Q | apply (tr_fr _ _ _ T)].
+      * apply (XOs_of s); [apply XO_timeout; exact Q | ]. apply (Fr_trans _ _ _ (tr_fr _ _ _ T)). eauto 10 with frdb.
+  - (* Connected *)
+    cbv zeta. set (x := set_rxq (tl (rxq s)) s).
+    assert (Hx : XOs x) by (unfold XOs, x; sproj; apply XO_set_rxq; exact B).
+    assert (Px : PHS x).
+    { destruct A as (P & Cg & F24'). refine (conj _ (conj _ F24')); [ | intros X; exfalso; change (st x) with (st s) in X; congruence].
+      apply (PH_step_neutral (set_rxq _)); try ph_setter; exact P. }
+    destruct (match rxq s with [] => RdNone | r :: _ => r end); cbn [fst]; auto.
+    + assert (FIx : FI x).
+      { refine (conj (proj1 Px) (conj _ _)); [intros _ D; change (st x) with (st s) in D; congruence | intros _; split; [exact St | exact R]]. }
+      pose proof (XOs_feed_items n its x FIx Hx) as Q. pose proof (Fr_feed_items n its x x (Fr_refl x)) as F.
+      destruct (feed_items n its x) as [[s1 o1] bad]. cbn [fst] in *. destruct bad; cbn [fst]; auto.
+      apply (XOs_of s1); [eauto with xodb | eauto with frdb].
+    + destruct (tls_present x); (apply (XOs_of x); [apply XO_conn_disconnect, XO_set_err; exact Hx | eauto with frdb]).
+    + apply (XOs_of x); [apply XO_conn_disconnect, XO_set_err; exact Hx | eauto with frdb].
+Qed.
+Lemma XS_run_once : forall n rd s, XS s -> XS (fst (run_once n rd s)).
+Proof.
+  intros n rd s H.
+  apply (run_once_ind (fun s _ => XS s) (fun s _ => XS s /\ reset_parser s = false) (fun s _ => XS s /\ reset_parser s = false)
+           (fun s _ => XS s /\ reset_parser s = false) (fun s _ => XS s) (fun s _ => XS s) (fun s _ => XS s)); auto.
+  - intros _. apply XS_send_phase, XS_ph_pre, H.
+  - intros s1 _ H1. apply XS_ph_reset, H1.
+  - intros s1 _ [H1 R1]. split; [apply XS_fire_timed, H1|].
+    pose proof (RPF_fire_timed n s1 s1 (RPF_refl s1)) as F. rewrite (rpf_rp _ _ F). exact R1.
+  - intros s1 _ [H1 R1]. exact H1.
+  - intros s1 _ [H1 R1]. apply XS_ph_watch; assumption.
+  - intros s1 _ [H1 R1]. exact H1.
+  - intros s1 _ [H1 R1]. apply XS_ph_io; assumption.
+  - intros s1 _ H1. apply XS_fire_timed, H1.
+Qed.
+
+(* ------------------------------------------------------------------ user operations *)
+Lemma XO_conn_connect : forall g' n t s, PHS s -> jid_set s = true -> XOs s -> XO g' (fst (fst (conn_connect n t s))) \/ st s <> Disconnected.
+Proof.
+  intros g' n t s A J H. destruct (st s) eqn:C; [left | right; discriminate | right; discriminate].
+  destruct (ph_smoff _ (proj1 A) C) as (S1 & S2 & S3). unfold XOs in H. xo_dest H.
+  unfold conn_connect. rewrite C. cbv zeta.
+  match goal with |- context [sock_connect ?c] => destruct (sock_connect c) as [oo [[k r]|]] end; cbn [fst];
+    unfold conn_reset, prepare_reset; rewrite C; cbv zeta; xo_split; sproj; auto; intros; try discriminate; try congruence.
+Qed.
+Lemma XOs_conn_connect : forall n t s, PHS s -> (st s = Disconnected -> jid_set s = true) -> XOs s -> XOs (fst (fst (conn_connect n t s))).
+Proof.
+  intros n t s A J H. destruct (st s) eqn:C.
+  - destruct (XO_conn_connect (gh (fst (fst (conn_connect n t s)))) n t s A (J eq_refl) H) as [Q|Q]; [exact Q | congruence].
+  - unfold conn_connect. rewrite C. exact H.
+  - unfold conn_connect. rewrite C. exact H.
+Qed.
+Lemma XO_disc_cfg : forall g s s', st s = Disconnected -> st s' = Disconnected ->
+  sasl s' = sasl s -> tls_support s' = tls_support s -> comp_supported s' = comp_supported s -> bind_required s' = bind_required s ->
+  sm_bind_saved s' = sm_bind_saved s -> session_required s' = session_required s -> sm_support s' = sm_support s ->
+  sendq s' = sendq s -> smq s' = smq s -> XO g s -> XO g s'.
+Proof.
+  intros g s s' D D' E1 E2 E3 E4 E5 E6 E7 E8 E9 H. xo_dest H.
+  xo_split; rewrite ?E1, ?E2, ?E3, ?E4, ?E5, ?E6, ?E7, ?E8, ?E9; auto; intros; congruence.
+Qed.
+Lemma XS_connect_client : forall n s, XS s -> XS (fst (fst (connect_client n s))).
+Proof.
+  intros n s (A & B & C). refine (conj (PHS_connect_client n s A) (conj _ _)).
+  - unfold connect_client. cbv zeta.
+    assert (Cfgx : forall x, XOs x -> PHS x -> jid_set x = true -> XOs (fst (fst (conn_connect n TClient (set_cands (next_cands x) x))))).
+    { intros x Hx Px Jx. apply XOs_conn_connect; [phs_chain Px | intros _; exact Jx | unfold XOs in *; sproj; apply XO_set_cands; exact Hx]. }
+    destruct (negb (jid_set s) && cert_set s) eqn:E.
+    + cbn [negb jid_set set_jid_res set_jid_node set_jid_set]. apply Cfgx; [ | phs_chain A | reflexivity].
+      destruct (st s) eqn:St.
+      * unfold XOs in *. sproj. apply (XO_disc_cfg _ s); auto.
+      * exfalso. unfold XOs in B. xo_dest B. rewrite X13 in E; [discriminate | congruence].
+      * exfalso. unfold XOs in B. xo_dest B. rewrite X13 in E; [discriminate | congruence].
+    + destruct (negb (jid_set s)) eqn:J; [exact B|]. apply negb_false_iff in J. apply Cfgx; auto.
+  - destruct (connect_client_cases n s) as [(K & _)|(K & _)].
+    + intros X. rewrite (cfg_sendq _ _ K). apply C. rewrite <- (cfg_st _ _ K). exact X.
+    + intros _. exact (fre_sendq _ _ K).
+Qed.
+Lemma XS_connect_component : forall n s, XS s -> XS (fst (fst (connect_component n s))).
+Proof.
+  intros n s (A & B & C). refine (conj (PHS_connect_component n s A) (conj _ _)).
+  - unfold connect_component. destruct (negb (jid_set s && pass_set s)) eqn:J; [exact B|]. apply negb_false_iff in J.
+    apply andb_prop in J. destruct J as [J _]. cbv zeta.
+    match goal with |- context [set_flags ?w s] =>
+      pose proof (PHS_set_flags w s A) as Ax; pose proof (Cfg_set_flags w s) as Cx;
+      assert (Bx : XOs (fst (set_flags w s)) /\ jid_set (fst (set_flags w s)) = true);
+      [ | destruct (set_flags w s) as [s1 rc]; cbn [fst] in * ] end.
+    { unfold set_flags. destruct (st s) eqn:St; [|split; assumption|split; assumption].
+      match goal with |- context [if ?c then _ else _] => destruct c end; cbn [fst]; [split; assumption|].
+      split; [|exact J]. unfold XOs in *. sproj. apply (XO_disc_cfg _ s); auto. }
+    destruct Bx as [Bx Jx]. destruct (negb (f_tls_disabled s1)); [exact Bx|].
+    apply XOs_conn_connect; [phs_chain Ax | intros _; exact Jx | unfold XOs in *; sproj; apply XO_set_cands; exact Bx].
+  - destruct (connect_component_cases n s) as [(K & _)|(K & _)].
+    + intros X. rewrite (cfg_sendq _ _ K). apply C. rewrite <- (cfg_st _ _ K). exact X.
+    + intros _. exact (fre_sendq _ _ K).
+Qed.
+
+Lemma XOs_step0 : forall s op, XS s -> XOs (fst (step0 s op)).
+Proof.
+  intros s op H. destruct H as (A & B & C).
+  unfold step0; destruct (crashed s); auto; destruct op; try (cbn [fst ret]; auto; fail).
+  all: try (destruct (st s) eqn:St; cbn [fst ret]; auto; unfold XOs in *; sproj; apply (XO_disc_cfg _ s); auto; fail).
+  - (* OpSetFlags *)
+    assert (Q : XOs (fst (set_flags w s))); [|destruct (set_flags w s); exact Q].
+    unfold set_flags. destruct (st s) eqn:St; auto. match goal with |- context [if ?c then _ else _] => destruct c end; cbn [fst]; auto.
+  - (* OpUserHandlers *)
+    destruct (st s) eqn:St; cbn [fst ret]; auto.
+    apply (XOs_same_gh s); [unfold h_add, timed_add; cases; reflexivity | unfold XOs in B; cases; eauto 10 with xodb].
+  - pose proof (XS_connect_client now s (conj A (conj B C))) as (_ & Q & _). destruct (connect_client now s) as [[s1 o] rc]. exact Q.
+  - destruct (st s) eqn:St; cbn [fst]; auto.
+    assert (Hx : XS (set_is_raw true s)).
+    { refine (conj _ (conj _ _)); [phs_chain A | unfold XOs in *; sproj; apply XO_set_is_raw; exact B | apply U2_set_is_raw; exact C]. }
+    pose proof (XS_connect_client now _ Hx) as (_ & Q & _). destruct (connect_client now (set_is_raw true s)) as [[s1 o] rc]. exact Q.
+  - pose proof (XS_connect_component now s (conj A (conj B C))) as (_ & Q & _). destruct (connect_component now s) as [[s1 o] rc]. exact Q.
+  - apply XS_run_once. exact (conj A (conj B C)).
+  - cbn [fst ret]. apply (XOs_of s); [unfold XOs in B; eauto with xodb | eauto with frdb].
+  - cbn [fst ret]. apply (XOs_of s); [unfold XOs in B; eauto with xodb | eauto with frdb].
+  - cbn [fst ret]. apply (XOs_of s); [unfold XOs in B; eauto with xodb | eauto with frdb].
+  - destruct (is_raw s); cbn [fst ret]; auto. apply (XOs_of s); [unfold XOs in B; eauto with xodb | eauto with frdb].
+  - destruct (st s); cbn [fst ret]; auto; (apply (XOs_of s); [unfold XOs in B; eauto with xodb | eauto with frdb]).
+Qed.
+
+(* the step-level invariant for offers / header / bind *)
+Definition XI (s : state) : Prop := PHS s /\ XOs s /\ IU s.
+Lemma XI_XS : forall s, XI s -> XS s.
+Proof. intros s (A & B & C). exact (conj A (conj B (proj2 (proj2 C)))). Qed.
+Lemma XI_step : forall s op, XI s -> XI (fst (step s op)).
+Proof.
+  intros s op H. pose proof (XI_XS s H) as Hs. destruct H as (A & B & C).
+  refine (conj (PHS_step s op A) (conj _ _)); rewrite step_eq; cbn [fst].
+  - apply XOs_note_outs, XOs_step0, Hs.
+  - apply (user_step0 s op C).
+Qed.
+Lemma XI_init : XI init_state.
+Proof.
+  refine (conj PHS_init (conj _ _)).
+  - unfold XOs. xo_split; cbn; auto; intros; discriminate.
+  - unfold IU, U1, U2. cbn. repeat split; intros; discriminate.
+Qed.
+
+(* ------------------------------------------------------------------ what reaches the wire *)
+Definition wire_ok (f : bool -> welem -> bool) (o : list out) : bool :=
+  forallb (fun x => match x with OWire t w => f t w | _ => true end) o.
+Lemma wire_ok_app : forall f a b, wire_ok f (a ++ b) = wire_ok f a && wire_ok f b.
+Proof. intros; unfold wire_ok; apply forallb_app. Qed.
+Lemma wire_ok_nowire : forall f o, existsb is_wire o = false -> wire_ok f o = true.
+Proof.
+  intros f o. unfold wire_ok. induction o as [|x o IH]; cbn [forallb existsb]; auto. intros H. apply orb_false_iff in H. destruct H as [A B].
+  rewrite (IH B). destruct x; cbn in *; auto; discriminate.
+Qed.
+Lemma wire_ok_quiet : forall f o, forallb quiet o = true -> wire_ok f o = true.
+Proof. intros f o Q. apply wire_ok_nowire. apply (scan_user_quiet o false Q). Qed.
+Lemma wire_ok_Tr : forall f s0 s o, Tr s0 s o -> wire_ok f o = true.
+Proof. intros f s0 s o T. apply wire_ok_nowire, (tr_nowire _ _ _ T). Qed.
+
+Lemma wire_ok_send_phase : forall f s,
+  (st s = Connected -> forallb (fun x : welem * bool * bool => f (tls_present s) (fst (fst x))) (sendq s) = true) ->
+  wire_ok f (snd (send_phase s)) = true.
+Proof.
+  intros f s H. unfold send_phase, ret. destruct (st s) eqn:C; try reflexivity. specialize (H eq_refl). cbv zeta.
+  assert (W : wire_ok f (map (fun x : welem * bool * bool => OWire (tls_present s) (fst (fst x))) (sendq s)) = true).
+  { unfold wire_ok. rewrite forallb_forall in *. intros x Hx. apply in_map_iff in Hx. destruct Hx as (y & <- & Hy). apply H; exact Hy. }
+  match goal with |- context [negb (err ?z =? 0)] => generalize z; intros y end.
+  destruct (negb (err y =? 0)); [|exact W].
+  pose proof (Tr_conn_disconnect _ _ _ (Tr_refl (set_err ECONNABORTED y))) as T. cbn [app] in T.
+  destruct (conn_disconnect (set_err ECONNABORTED y)) as [s2 o2]. cbn [fst snd] in *. rewrite wire_ok_app, W. apply (wire_ok_Tr f _ _ _ T).
+Qed.
+Lemma wire_ok_run_once : forall f n rd s,
+  (st s = Connected -> forallb (fun x : welem * bool * bool => f (tls_present s) (fst (fst x))) (sendq s) = true) ->
+  wire_ok f (snd (run_once n rd s)) = true.
+Proof.
+  intros f n rd s H.
+  apply (run_once_ind (fun _ o => wire_ok f o = true) (fun _ o => wire_ok f o = true) (fun _ o => wire_ok f o = true)
+           (fun _ o => wire_ok f o = true) (fun _ o => wire_ok f o = true) (fun _ o => wire_ok f o = true) (fun _ o => wire_ok f o = true)); auto.
+  - intros _. apply wire_ok_send_phase.
+    assert (E : st (ph_pre rd s) = st s /\ tls_present (ph_pre rd s) = tls_present s /\ sendq (ph_pre rd s) = sendq s) by (clear H; unfold ph_pre; cases; repeat split; first [reflexivity | assumption]).
+    destruct E as (E1 & E2 & E3). rewrite E1, E2, E3. exact H.
+  - intros s1 o W. rewrite wire_ok_app, W. apply (wire_ok_Tr f _ _ _ (Tr_fire_timed n s1 s1 [] (Tr_refl s1))).
+  - intros s1 o W. rewrite wire_ok_app, W. apply (wire_ok_Tr f _ _ _ (Tr_ph_watch n s1 s1 [] (Tr_refl s1))).
+  - intros s1 o W. rewrite wire_ok_app, W. reflexivity.
+  - intros s1 o W. rewrite wire_ok_app, W. destruct (Tr_ph_io n s1 s1 [] (Tr_refl s1)) as [(_ & _ & Eq)|T].
+    + rewrite Eq. apply (wire_ok_Tr f _ _ _ (Tr_conn_established n _ _ [] (Tr_refl (set_st Connected s1)))).
+    + apply (wire_ok_Tr f _ _ _ T).
+  - intros s1 o W. rewrite wire_ok_app, W. apply (wire_ok_Tr f _ _ _ (Tr_fire_timed n s1 s1 [] (Tr_refl s1))).
+  - intros s1 o W. rewrite wire_ok_app, W. reflexivity.
+Qed.
+Lemma wire_ok_step0 : forall f s op,
+  (st s = Connected -> forallb (fun x : welem * bool * bool => f (tls_present s) (fst (fst x))) (sendq s) = true) ->
+  wire_ok f (snd (step0 s op)) = true.
+Proof.
+  intros f s op H. unfold step0. destruct (crashed s); [reflexivity|]. destruct op; try (cases; reflexivity).
+  - destruct (connect_client_cases now s) as [(_ & E)|(_ & Q)]; destruct (connect_client now s) as [[s1 o] rc]; cbn [fst snd] in *;
+      rewrite wire_ok_app; [rewrite E; reflexivity | rewrite (wire_ok_quiet f o Q); reflexivity].
+  - destruct (st s); try reflexivity.
+    destruct (connect_client_cases now (set_is_raw true s)) as [(_ & E)|(_ & Q)]; destruct (connect_client now (set_is_raw true s)) as [[s1 o] rc]; cbn [fst snd] in *;
+      rewrite wire_ok_app; [rewrite E; reflexivity | rewrite (wire_ok_quiet f o Q); reflexivity].
+  - destruct (connect_component_cases now s) as [(_ & E)|(_ & Q)]; destruct (connect_component now s) as [[s1 o] rc]; cbn [fst snd] in *;
+      rewrite wire_ok_app; [rewrite E; reflexivity | rewrite (wire_ok_quiet f o Q); reflexivity].
+  - apply wire_ok_run_once. exact H.
+  - destruct (st s); try reflexivity; apply (wire_ok_Tr f _ _ _ (Tr_conn_disconnect s s [] (Tr_refl s))).
+Qed.
+
+Theorem offers_ok : forall ops, check_run ok_offers init_state ops = true.
+Proof.
+  intros ops. apply (check_run_inv ok_offers XI); [exact XI_step | | exact XI_init].
+  intros s op (A & B & C). rewrite step_eq. cbn [fst snd]. unfold ok_offers.
+  change (wire_ok (fun _ w => justified s w) (snd (step0 s op)) = true). apply wire_ok_step0. intros _.
+  unfold XOs in B. xo_dest B. exact X8.
+Qed.
+Theorem header_bind_ok : forall ops, check_run ok_header_bind init_state ops = true.
+Proof.
+  intros ops. apply (check_run_inv ok_header_bind XI); [exact XI_step | | exact XI_init].
+  intros s op (A & B & C). rewrite step_eq. cbn [fst snd]. unfold ok_header_bind.
+  assert (E : forall o, forallb (fun o0 : out => match o0 with
+       | OWire tls (WHeader from) => negb from || tls | OWire _ (WBind r) => Bool.eqb r (jid_res s) | _ => true end) o =
+     wire_ok (fun t w => hdr_w t w && bnd_w (jid_res s) w) o).
+  { induction o as [|x o IH]; [reflexivity|]. cbn [forallb wire_ok]. fold (wire_ok (fun t w => hdr_w t w && bnd_w (jid_res s) w) o).
+    rewrite IH. f_equal. destruct x as [t w| | | | | | | | | | | | |]; try reflexivity.
+    destruct w; cbn; try reflexivity; try (rewrite andb_true_r; reflexivity). destruct from, t; reflexivity. }
+  rewrite E. apply wire_ok_step0. intros Cn. unfold XOs in B. xo_dest B.
+  specialize (X11 Cn). assert (X12' := X12 ltac:(congruence)). clear - X11 X12'.
+  unfold qall in *. induction (sendq s) as [|x q IH]; [reflexivity|]. cbn [forallb] in *.
+  apply andb_prop in X11. apply andb_prop in X12'. destruct X11 as [A1 A2], X12' as [B1 B2]. rewrite A1, B1, (IH A2 B2). reflexivity.
+Qed.
+
 (* ================================================================== registration skeleton *)
 Lemma Gen_skeleton_ok : skeleton_ok skeleton = true.
 Proof. vm_compute. reflexivity. Qed.
